@@ -42,6 +42,9 @@ def code_grid(ctx, full):
     if full:
         codes.update(range(-33100, -31899))
         codes.update(range(-200, 201))
+    # the ranges people map other protocols' status codes into (HTTP 1xx-5xx, errno, exit statuses): every value in quick too
+    codes.update(range(-1100, 1101, 1 if full else 7))
+    codes.update(range(395, 605))
     for c in NAMED:
         codes.update((c - 1, c, c + 1))
     codes.update((0, 1, -1, 2**31 - 1, -2**31, 2**63 - 1, -2**63, 2**63, 2**64 - 1, -32099, -32100, -31999, -32768, -32769))
@@ -115,6 +118,11 @@ def check_send_message(ctx, model, spec):
         extra.append(q)
     scs += extra
     n_plain = len(scs)
+    # (0) a cancellation token is passed and never triggered: the error that answers the request is classified all the same
+    for i, c in enumerate(codes[::max(1, len(codes) // 60)]):
+        scs.append({"D": 200, "me": ("a", "123", None)[i % 3], "has_cb": bool(i % 2), "cancel": None, "params": None, "idle_token": True,
+                    "arrivals": [(3, ("res", ("str", "zz-other"), 1)), (5, ("err", ("me",), c, datas[i % len(datas)])),
+                                 (9, ("res", ("me",), 2))]})
     # (a) the REQUEST carries legal Python values that are not JSON-native (paths, decimals, sets, bytes): what the request
     #     looked like has no bearing on how the error that answers it is classified;
     # (b) the peer answered with the error and hung up before the caller got to read it: the buffered error is still THE answer
@@ -145,6 +153,7 @@ def check_send_message(ctx, model, spec):
         ctx.count("error-object:" + ("without-message" if len(em) > 4 else "complete"))
         ctx.count("request-params:" + ("not-json-native" if isinstance(sc.get("params"), dict) and "$odd" in sc["params"] else "json"))
         ctx.count("peer:" + ("hung-up-after-answering" if sc.get("closed_before_call") else "stays"))
+        ctx.count("cancellation-token:" + ("passed-never-triggered" if sc.get("idle_token") else "none"))
         if not ok:
             klass = "error-returned-normally" if obs["out"][0] == "ret" else \
                     "error-raised-with-wrong-class-or-code" if obs["out"][0] == "err" else "error-response-ignored"
